@@ -12,9 +12,10 @@ namespace DDP.Duden
 def anfuegen (l : List Int) (e : Int) : List Int := l ++ [e]
 def anfuegenListe (l o : List Int) : List Int := l ++ o
 def voranstellen (l : List Int) (e : Int) : List Int := e :: l
-/-- `Setze e an die Stelle i von l`: e stands at position i afterwards (1 ≤ i ≤ |l|) -/
+/-- `Setze e an die Stelle i von l`: e stands at position i afterwards; there are |l|+1 insert positions (1 ≤ i ≤ |l|+1),
+the last one appends -/
 def einfuegen (l : List Int) (i : Nat) (e : Int) : Option (List Int) :=
-  if 1 ≤ i ∧ i ≤ l.length then some (l.take (i - 1) ++ [e] ++ l.drop (i - 1)) else none
+  if 1 ≤ i ∧ i ≤ l.length + 1 then some (l.take (i - 1) ++ [e] ++ l.drop (i - 1)) else none
 def loesche (l : List Int) (i : Nat) : Option (List Int) :=
   if 1 ≤ i ∧ i ≤ l.length then some (l.take (i - 1) ++ l.drop i) else none
 def loescheBereich (l : List Int) (a b : Nat) : Option (List Int) :=
@@ -139,7 +140,7 @@ that are dyadic rationals with few digits, where floating point arithmetic is ex
 def leere (_ : List Int) : List Int := []
 /-- `Setze die Elemente in r an die Stelle i von l`: r starts at position i afterwards (1 ≤ i ≤ |l|) -/
 def einfuegenBereich (l : List Int) (i : Nat) (r : List Int) : Option (List Int) :=
-  if 1 ≤ i ∧ i ≤ l.length then some (l.take (i - 1) ++ r ++ l.drop (i - 1)) else none
+  if 1 ≤ i ∧ i ≤ l.length + 1 then some (l.take (i - 1) ++ r ++ l.drop (i - 1)) else none
 def voranstellenListe (l o : List Int) : List Int := o ++ l
 /-- numbers from `a` down to `b`, both inclusive (`a ≥ b`) -/
 def absteigend (a b : Int) : List Int := (List.range (a - b + 1).toNat).map fun (k : Nat) => a - (k : Int)
@@ -382,5 +383,26 @@ def maxKommazahl : Rat := (2 - 1 / ((2 ^ 31 : Nat) : Rat)) * ((2 ^ 1023 : Nat) :
 def minKommazahl : Rat := -maxKommazahl
 def epsilonPos : Rat := 1 / ((2 ^ 1022 : Nat) : Rat)
 def epsilonNeg : Rat := -epsilonPos
+
+/-! ### Duden/TextIterator
+
+An iterator over a text that has handled `k` letters: its index is `k + 1`, its current letter the
+`k+1`-st, the remaining letters include the current one. -/
+
+structure IterView where
+  index : Nat
+  buchstabe : Int
+  verbleibend : Nat
+  behandelt : Nat
+  rest : List Int
+  bisher : List Int
+  deriving Repr, DecidableEq
+
+/-- what the functions of Duden/TextIterator answer after `k` calls of `Setzte … auf den nächsten Buchstaben` -/
+def iterView (t : List Int) (k : Nat) : IterView :=
+  ⟨k + 1, (t.drop k).headD 0, t.length - k, k, t.drop k, t.take k⟩
+
+/-- the whole walk: one view per letter, the iterator is `zuende` after the last -/
+def iterWalk (t : List Int) : List IterView := (List.range t.length).map (iterView t)
 
 end DDP.Duden
